@@ -396,6 +396,10 @@ func c04ExploreScenario(name string, hist []c04Op) *explore.Scenario {
 }
 
 func c04RegistryField(f string) bool {
+	// RaceInfo.Field is "file:line:Type.field"
+	if i := strings.LastIndex(f, ":"); i >= 0 {
+		f = f[i+1:]
+	}
 	return strings.HasPrefix(f, "hSet.") || strings.HasPrefix(f, "hList.") || strings.HasPrefix(f, "hNode.")
 }
 
